@@ -200,6 +200,44 @@ class token_matching_rev:
 REG.inline_ok |= {'sqlparse.utils.imt', 'sqlparse.sql.Token.match'}
 
 
+def _transfer_allws(ex, st, lst, lo, hi, pred):
+    """NOMATCH(pred, list, lo, hi) is known.  If every element that does not satisfy `pred` is a whitespace token (decided
+    by running the real closure on an arbitrary element), then each pristine segment of list[lo:hi] consists of
+    whitespace tokens: recorded in base coordinates (ALLWSF), so that the fact survives modifications of the list."""
+    try:
+        ka = ex.split_at(st, lst, lo)
+        kb = ex.split_at(st, lst, hi)
+        ka = ex.split_at(st, lst, lo)
+    except OutsideSubset:
+        return
+    for it in st.lists[lst.lid][ka:kb]:
+        if it[0] != 'seg':
+            continue
+        sg = ex.segs(st)[it[1]]
+        if 'ttype' in sg['uni'] or 'is_whitespace' in sg['uni'] or st.ghost.get('__taint__'):
+            continue
+        if not smt.feasible(list(st.pc) + [sg['len'] >= 1]):
+            continue
+        probe = st.fork()
+        probe.assume(sg['len'] >= 1)
+        marks = len(ex.goals)
+        try:
+            e = ex.materialise(probe, it[1], tag='probe', off=fresh('probe_off', z3.IntSort()))
+            ok = True
+            for s3, v3 in ex.call(pred, [e], {}, probe):
+                b = ex.truth(v3, s3)
+                zb = z3.BoolVal(b) if isinstance(b, bool) else b
+                ws = ex.truth(s3.objs[e.oid]['is_whitespace'], s3)
+                zw = z3.BoolVal(ws) if isinstance(ws, bool) else ws
+                if not smt.entails(list(s3.pc) + [z3.Not(zb)], zw):
+                    ok = False
+        except (OutsideSubset, PyExc):
+            ok = False
+        del ex.goals[marks:]
+        if ok:
+            st.assume(ex.allws_term(st, sg['base'], sg['lo'], sg['hi']))
+
+
 class _TokenMatchingCallsite:
     """modular use of the two verified cases above: assert the precondition, create the result, assume exactly the
     `ensures` strings of the verified case, and link MATCH to the concrete predicate passed (a pure closure)"""
@@ -292,6 +330,8 @@ class _TokenMatchingCallsite:
             else:
                 nm2 = ex.spec_fn('NOMATCH', [funcs, me, start, SInt(r0)], {}, s2)[0][1]
             s2.assume(nm2.z)
+            if not reverse and single is not None:
+                _transfer_allws(ex, s2, lst, zs, r0, single)
             res = (SInt(r0), tok)
             fs = funcs if isinstance(funcs, (tuple, list)) else (funcs,)
             if isinstance(funcs, LRef) and all(it[0] == 'el' for it in s2.lists[funcs.lid]):
@@ -554,6 +594,10 @@ class _GroupTokensCallsite:
                 from pyvc.heap import bump
                 s2.lists[lst.lid] = items[:ka] + (('el', grp),) + items[kb:]
                 bump(s2, lst.lid)
+                # ghost updates declared by the caller's contract for this call site (evaluated in its frame, in the
+                # state after the call; ghost code cannot change program state)
+                for gname, gexpr in ((getattr(ex.contract, 'callsite_ghost', None) or {}).get('group_tokens', {})).items():
+                    s2.ghost[gname] = ex.spec_value(gexpr, s2)
                 out.append((s2, grp))
         return out
 
